@@ -390,6 +390,20 @@ def subitemsStr (sty : Styles) (indent : Nat) (st : MSt) : List Node → M (Str 
           | .error e => .error e
           | .ok (u, st3) => .ok (t2 ++ u, st3)
     else subitemsStr sty indent st rest
+end
+
+/-- the loop over the cells of a row -/
+def cellsStr (sty : Styles) (st : MSt) : List Node → M (Str × MSt)
+  | [] => .ok ([], st)
+  | .text _ :: _ => .error .attributeError
+  | .elem q attrs kids :: rest =>
+    match kidsStr sty st kids with
+    | .error e => .error e
+    | .ok (t, st1) =>
+      match cellsStr sty { st1 with last := some q } rest with
+      | .error e => .error e
+      | .ok (u, st2) => .ok (inlineMarkup sty attrs t ++ sCellEnd ++ u, st2)
+
 /-- tableToString: the loop over the table's children -/
 def rowsStr (sty : Styles) (st : MSt) : List Node → M (Str × MSt)
   | [] => .ok ([], st)
@@ -411,18 +425,6 @@ def rowsStr (sty : Styles) (st : MSt) : List Node → M (Str × MSt)
         | .error e => .error e
         | .ok (u, st2) => .ok (sRowStart ++ t ++ u, st2)
     else rowsStr sty st0 rest
-/-- the loop over the cells of a row -/
-def cellsStr (sty : Styles) (st : MSt) : List Node → M (Str × MSt)
-  | [] => .ok ([], st)
-  | .text _ :: _ => .error .attributeError
-  | .elem q attrs kids :: rest =>
-    match kidsStr sty st kids with
-    | .error e => .error e
-    | .ok (t, st1) =>
-      match cellsStr sty { st1 with last := some q } rest with
-      | .error e => .error e
-      | .ok (u, st2) => .ok (inlineMarkup sty attrs t ++ sCellEnd ++ u, st2)
-end
 
 /-- the loop of toString over the children of office:text; returns the buffer entries -/
 def topStr (sty : Styles) (st : MSt) : List Node → M (List Str × MSt)
